@@ -170,22 +170,33 @@ theorem preprocess_batch (norm : Bool) (sp : Leaf) (hsp : WellFormed sp) (batch 
   cases sp with
   | box p lo hi =>
     obtain ⟨hp, hlo, hhi⟩ := hsp
-    simp only [preprocess, Leaf.obsShape, Leaf.netShape]
-    by_cases hn : p.length = 3 ∧ norm = true
-    · have hP : prepRow norm (.box p lo hi) = normData lo hi := by
-        funext r; simp only [prepRow]; rw [if_pos hn]
-      rw [if_pos hn, applyNorm_batch p lo hi hp hlo hhi batch rows (fun r hr => hv r hr), hP]
-      simp only [bind, Except.bind]
-      exact mabd_batch batch p _ hb hp
-    · have hP : prepRow norm (.box p lo hi) = fun r => r := by
-        funext r; simp only [prepRow]; rw [if_neg hn]
-      rw [if_neg hn, hP]
-      simp only [bind, Except.bind]
-      rw [mabd_batch batch p _ hb hp]
+    cases p with
+    | nil =>
+      have hP : prepRow norm (.box [] lo hi) = fun r => r := by funext r; simp [prepRow]
+      simp only [preprocess, preprocessWith, Leaf.obsShape, Leaf.netShape, List.append_nil]
+      rw [if_neg (by simp), hP]
+      simp only [bind, Except.bind, and_self, if_true]
+      rw [mabd_batch batch [1] _ hb (by simp [numel])]
       simp
+    | cons d ps =>
+      have hne : ¬ (d :: ps = [] ∧ True) := by simp
+      simp only [preprocess, preprocessWith, Leaf.obsShape, Leaf.netShape]
+      by_cases hn : (d :: ps).length = 3 ∧ norm = true
+      · have hP : prepRow norm (.box (d :: ps) lo hi) = normData lo hi := by
+          funext r; simp only [prepRow]; rw [if_pos hn]
+        rw [if_pos hn, applyNorm_batch (d :: ps) lo hi hp hlo hhi batch rows (fun r hr => hv r hr), hP]
+        simp only [bind, Except.bind]
+        rw [if_neg hne]
+        exact mabd_batch batch (d :: ps) _ hb hp
+      · have hP : prepRow norm (.box (d :: ps) lo hi) = fun r => r := by
+          funext r; simp only [prepRow]; rw [if_neg hn]
+        rw [if_neg hn, hP]
+        simp only [bind, Except.bind]
+        rw [if_neg hne, mabd_batch batch (d :: ps) _ hb hp]
+        simp
   | discrete n =>
     have hn : 0 < n := hsp
-    simp only [preprocess, prepDiscrete, Leaf.obsShape, Leaf.netShape, List.append_nil]
+    simp only [preprocess, preprocessWith, prepDiscrete, Leaf.obsShape, Leaf.netShape, List.append_nil]
     rw [oneHotAll_rows n rows hv]
     simp only [liftOpt, bind, Except.bind]
     have hd : ∀ nrm, prepRow nrm (.discrete n) = prepRow false (.discrete n) := fun _ => rfl
@@ -207,7 +218,8 @@ theorem preprocess_batch (norm : Bool) (sp : Leaf) (hsp : WellFormed sp) (batch 
     obtain ⟨hne, hpos⟩ := hsp
     have hk : 0 < nv.length := List.length_pos_iff.mpr hne
     have hS : 0 < nv.sum := sum_pos_of_all_pos nv hne hpos
-    simp only [preprocess, prepMultiDiscrete, prepMultiDiscreteWith, Leaf.obsShape, Leaf.netShape]
+    simp only [preprocess, preprocessWith, prepMultiDiscrete, prepMultiDiscreteWith, Leaf.obsShape,
+      Leaf.netShape, Bool.false_eq_true, if_false]
     rw [mabd_batch batch [nv.length] _ hb (by simp [numel]; omega)]
     simp only [bind, Except.bind]
     have hc : chunk nv.length rows.flatten = rows :=
@@ -226,7 +238,7 @@ theorem preprocess_batch (norm : Bool) (sp : Leaf) (hsp : WellFormed sp) (batch 
   | multiBinary n =>
     have hn : 0 < n := hsp
     have hP : prepRow norm (.multiBinary n) = fun r => r := by funext r; rfl
-    simp only [preprocess, Leaf.obsShape, Leaf.netShape]
+    simp only [preprocess, preprocessWith, Leaf.obsShape, Leaf.netShape]
     rw [mabd_batch batch [n] _ hb (by simp [numel]; omega), hP]
     simp
 
